@@ -278,7 +278,7 @@ namespace fastscapelib
             {
                 using neighbors_type = typename graph_impl_type::grid_type::neighbors_type;
 
-                double slope;
+                double slope, slope_max;
                 double weight, weights_sum;
                 neighbors_type neighbors;
                 size_type nrec;
@@ -306,6 +306,7 @@ namespace fastscapelib
 
                     nrec = 0;
                     weights_sum = 0;
+                    slope_max = 0;
 
                     for (auto n : grid.neighbors(i, neighbors))
                     {
@@ -317,9 +318,9 @@ namespace fastscapelib
                             receivers(i, nrec) = n.idx;
                             dist2receivers(i, nrec) = n.distance;
 
-                            weight = std::pow(slope, this->m_op_ptr->m_slope_exp);
-                            weights_sum += weight;
-                            receivers_weight(i, nrec) = weight;
+                            // temporarily store the slope (weights are computed below)
+                            receivers_weight(i, nrec) = slope;
+                            slope_max = std::max(slope_max, slope);
 
                             // update donors (note: not thread safe if later parallelization)
                             donors(n.idx, donors_count(n.idx)++) = i;
@@ -338,6 +339,17 @@ namespace fastscapelib
                     }
 
                     receivers_count(i) = nrec;
+
+                    // compute weights from slopes relative to the steepest one
+                    // (prevents underflow / overflow of the power function)
+                    for (size_type j = 0; j < nrec; j++)
+                    {
+                        weight = slope_max > 0 ? std::pow(receivers_weight(i, j) / slope_max,
+                                                          this->m_op_ptr->m_slope_exp)
+                                               : 1.0;
+                        weights_sum += weight;
+                        receivers_weight(i, j) = weight;
+                    }
 
                     // normalize weights
                     for (size_type j = 0; j < nrec; j++)
